@@ -250,6 +250,14 @@ impl PoolMap {
         let mut removed_ids = vec![id.to_owned()];
         removed_ids.extend(self.calc_descendants(id));
 
+        // the ancestors which stay in the pool must no longer count the removed entries as
+        // their descendants; this must be done while the links are still in place
+        for id in &removed_ids {
+            if let Some(entry) = self.get(id).cloned() {
+                self.update_ancestors_index_key(&entry, EntryOp::Remove);
+            }
+        }
+
         // update links state for remove, so that we won't update_descendants_index_key in remove_entry
         for id in &removed_ids {
             self.remove_entry_links(id);
